@@ -1,4 +1,5 @@
 """C14 - a timed-out command is killed and reported promptly; a timely one is left alone."""
+import os
 import sys
 import time
 
@@ -132,6 +133,37 @@ def source_case(case):
         cfg = Config(overrides={"runners": {"local": R}})
         Context(cfg).run("x", hide=True, in_stream=False)
         want = None
+    elif kind in ("file", "envvar"):
+        # configured through a runtime config file / an environment variable, run through the real
+        # Program WITHOUT -T: the configured value must be the one in effect
+        import json as _json
+        import tempfile
+        import shutil
+
+        @task
+        def t(c):
+            c.config.runners.local = R
+            c.run("x", hide=True, in_stream=False)
+        d = tempfile.mkdtemp(prefix="c14-")
+        old_env = dict(os.environ)
+        try:
+            argv = ["inv"]
+            if kind == "file":
+                f = os.path.join(d, "rt.json")
+                open(f, "w").write(_json.dumps({"timeouts": {"command": 9}}))
+                argv += ["-f", f]
+            else:
+                os.environ["INVOKE_TIMEOUTS_COMMAND"] = "9"
+            p = Program(namespace=Collection(t))
+            try:
+                p.run(argv + case.get("argv", []) + ["t"], exit=False)
+            except SystemExit:
+                pass
+        finally:
+            os.environ.clear()
+            os.environ.update(old_env)
+            shutil.rmtree(d, ignore_errors=True)
+        want = 5 if case.get("argv") else 9
     else:  # CLI flag
         @task
         def t(c):
@@ -143,6 +175,8 @@ def source_case(case):
         except SystemExit:
             pass
         want = 5
+    if kind == "envvar" and not case.get("argv") and str(Probe.seen) == str(want):
+        return None  # a None-typed setting takes the environment text verbatim (C16)
     if Probe.seen != want:
         return "timeout in effect is %r, expected %r (source %s)" % (Probe.seen, want, kind)
     return None
@@ -188,7 +222,64 @@ def real_case(case):
     return None
 
 
+def reuse_case(case):
+    """one Runner object used twice: a run under a (not firing) timeout, then a run without any timeout"""
+    from invoke import Context, Config
+    from invoke.exceptions import CommandTimedOut
+    from fakerunner import Scripted
+    r = Scripted(Context(Config()), out=[b"a"], exited=case.get("rc", 0), finish_when="drained")
+    r.run("x", hide=True, in_stream=False, timeout=30, warn=True)
+    r._out, r._err = [b"b"], []
+    r._drained = {"out": False, "err": False}
+    try:
+        res = r.run("y", hide=True, in_stream=False, warn=True)
+    except CommandTimedOut:
+        return "[timely-but-timedout] a command run without any timeout was reported as timed out (same Runner object used earlier with a timeout)"
+    if res.exited != case.get("rc", 0):
+        return "wrong result on the second run"
+    return None
+
+
+def async_case(case):
+    """asynchronous run that finishes early but whose join() raises, with a timeout in effect: nothing may be killed
+    later and the timer must not stay armed"""
+    import threading
+    from invoke import Context, Config, Local
+    from invoke.exceptions import Failure
+    kills = []
+
+    class L(Local):
+        def kill(self):
+            kills.append(time.time())
+            super().kill()
+
+    p = L(Context(Config())).run(case["cmd"], asynchronous=True, timeout=0.6, pty=case["pty"])
+    try:
+        p.join()
+    except Failure:
+        pass
+    time.sleep(0.9)
+    armed = [t for t in threading.enumerate() if isinstance(t, threading.Timer) and t.is_alive()]
+    if kills:
+        return "[killed-after-finish] the command finished (join returned/raised) before the timeout, yet kill() was issued later"
+    if armed:
+        return "[leftover-timer] join() is over but the timeout timer is still armed"
+    return None
+
+
 def replay(case):
+    if "reuse" in case:
+        try:
+            why = common.with_timeout(reuse_case, 30, case)
+        except common.Hang:
+            why = "[hang] the run did not return"
+        return why is None, why or "ok"
+    if "async" in case:
+        try:
+            why = common.with_timeout(async_case, 30, case)
+        except common.Hang:
+            why = "[hang] the run did not return"
+        return why is None, why or "ok"
     if "src" in case:
         why = source_case(case)
     elif "real" in case:
@@ -216,7 +307,13 @@ def run(ctx):
     w3 = dict(base, warn=False, sched="x0,main,main,main,out,main,err,main,main,timer,main,timer".split(","))
     runnerio.run_cases(ctx, out, [w1, w2, w3] + gcases, oracle=oracle_gated)
     extra = [{"src": "kwarg"}, {"src": "config"}, {"src": "none"}, {"src": "cli", "argv": ["-T", "5"]},
-             {"src": "cli", "argv": ["--command-timeout=5"]}, {"src": "cli", "argv": ["-T5"]}]
+             {"src": "cli", "argv": ["--command-timeout=5"]}, {"src": "cli", "argv": ["-T5"]},
+             {"src": "file"}, {"src": "envvar"}, {"src": "file", "argv": ["-T", "5"]}, {"src": "envvar", "argv": ["-T5"]},
+             {"reuse": True, "rc": 0}, {"reuse": True, "rc": 2}]
+    for pty in (False, True):
+        for cmd in ("exit 3", "true"):
+            extra.append({"async": True, "cmd": cmd, "pty": pty})
+    extra += []
     for pty in (False, True):
         for warn in (False, True):
             extra.append({"real": "sleep", "cmd": "sleep 5", "pty": pty, "warn": warn})
@@ -225,7 +322,7 @@ def run(ctx):
     extra.append({"real": "grandchild"})
     for c in extra:
         out.case(c, True)
-        out.hist["extra:" + (c.get("src") and "source" or c.get("real"))] += 1
+        out.hist["extra:" + (c.get("src") and "source" or c.get("real") or ("reuse" if "reuse" in c else "async"))] += 1
         try:
             ok, why = replay(c)
         except OSError as e:
